@@ -303,7 +303,12 @@ class dotdict_base( object ):
         mine,rest		= self._resolve( key ) if '.' in key else (key,None)
         if rest is None:
             return super( dotdict_base, self ).pop( mine, *args[1:] )
-        target                  = super( dotdict_base, self ).__getitem__( mine )
+        try:
+            target		= super( dotdict_base, self ).__getitem__( mine )
+        except KeyError:
+            if len( args ) > 1:
+                return args[1] # no such level, and a default was supplied
+            raise
         if not isinstance( target, dotdict_base ):
             raise KeyError( 'cannot pop "%s" in "%s" (%r)' % ( rest, mine, target ))
         return target.pop( rest, *args[1:] )
